@@ -186,7 +186,11 @@ fn stripped_positions<T: NanEl>(buf: &mut [T], offset: usize, n: usize, stride: 
     let base = buf.as_ptr() as isize;
     let size = std::mem::size_of::<T>() as isize;
     let buf_len = buf.len();
-    let allowed = positions(offset, n, stride);
+    let mut allowed = vec![false; buf_len];
+    for p in positions(offset, n, stride) {
+        allowed[p] = true;
+    }
+    let mut visited = vec![false; buf_len];
     let (ptr, len, st) = {
         let v = view1(buf, offset, n, stride);
         let r: ArrayViewMut1<'_, T::NotNan> = T::remove_nan_mut(v);
@@ -209,18 +213,19 @@ fn stripped_positions<T: NanEl>(buf: &mut [T], offset: usize, n: usize, stride: 
             ));
         }
         let p = (off / size) as usize;
-        if !allowed.contains(&p) {
+        if !allowed[p] {
             return Err(Failure::new(
                 "aliasing",
                 format!(
                     "element {} of the returned view (len {}, stride {}) is buffer position {}, which is not an element of the input view (offset {}, len {}, stride {}; positions {:?})",
-                    i, len, st, p, offset, n, stride, allowed
+                    i, len, st, p, offset, n, stride, positions(offset, n, stride)
                 ),
             ));
         }
-        if out.contains(&p) {
+        if visited[p] {
             return Err(Failure::new("aliasing", format!("the returned view visits buffer position {} twice", p)));
         }
+        visited[p] = true;
         out.push(p);
     }
     Ok(out)
@@ -343,6 +348,8 @@ pub fn check_remove_t<T: NanEl>(c: &RemoveCase) -> CheckResult {
         .class_if(c.stride == 1, "unit-stride")
         .class_if(n_present == 0 && n > 0, "all-missing")
         .class_if(n_present == n, "none-missing")
+        .class_if(n >= 512, "long(>=512)")
+        .class_if(n >= 4096, "long(>=4096)")
         .class_if(n <= 1, "len<=1"))
 }
 
@@ -423,16 +430,97 @@ pub fn remove_strategy(max_len: usize) -> impl Strategy<Value = RemoveCase> {
         .prop_map(|(ty, mask, stride, offset, vals)| RemoveCase { ty, mask, stride, offset, vals })
 }
 
+/// Long lanes: missing values confined to the head / tail, long runs of missing values next
+/// to a present end, sparse and dense masks; lengths around block sizes.
+pub fn remove_long_strategy(max_len: usize) -> impl Strategy<Value = RemoveCase> {
+    (
+        proptest::sample::select(NAN_TYPES.to_vec()),
+        crate::gen::long_len(300, max_len),
+        0u8..12,
+        any::<u16>(),
+        any::<u64>(),
+        prop_oneof![Just(1isize), Just(1isize), Just(2isize), Just(3isize), Just(-1isize), Just(-1isize), Just(-2isize)],
+        0usize..3,
+        proptest::collection::vec(any::<i8>(), 0..8),
+    )
+        .prop_map(|(ty, n, class, k, seed, stride, offset, vals)| {
+            let mut next = crate::gen::splitmix(seed);
+            let k = k as usize;
+            let mut mask = vec![false; n];
+            match class {
+                // missing values only among the last / first few elements
+                0 => {
+                    let t = 1 + k % 130;
+                    for i in n - t.min(n)..n {
+                        mask[i] = next() % 3 != 0 || i + 1 == n;
+                    }
+                }
+                1 => {
+                    let t = 1 + k % 130;
+                    for i in 0..t.min(n) {
+                        mask[i] = next() % 3 != 0 || i == 0;
+                    }
+                }
+                2 => mask[n - 1] = true,
+                3 => mask[0] = true,
+                // a long run of missing values right before a present last element / after a present first one
+                4 => {
+                    let r = (500 + k % 700).min(n - 1);
+                    for i in n - 1 - r..n - 1 {
+                        mask[i] = true;
+                    }
+                }
+                5 => {
+                    let r = (500 + k % 700).min(n - 1);
+                    for i in 1..=r {
+                        mask[i] = true;
+                    }
+                }
+                // all missing but one
+                6 => {
+                    mask = vec![true; n];
+                    mask[if k % 3 == 0 { 0 } else if k % 3 == 1 { n - 1 } else { k % n }] = false;
+                }
+                7 => mask[k % n] = true,
+                8 => {
+                    for m in mask.iter_mut() {
+                        *m = next() % 10 == 0;
+                    }
+                }
+                9 => {
+                    for m in mask.iter_mut() {
+                        *m = next() % 10 != 0;
+                    }
+                }
+                10 => {
+                    for m in mask.iter_mut() {
+                        *m = next() % 2 == 0;
+                    }
+                }
+                // a missing tail of arbitrary length (padded lanes)
+                _ => {
+                    let t = 1 + (k * n >> 16);
+                    for i in n - t.min(n)..n {
+                        mask[i] = true;
+                    }
+                }
+            }
+            RemoveCase { ty, mask, stride, offset, vals }
+        })
+}
+
 pub fn run_c04(ctx: &Ctx) {
     let t = ctx.tier();
     enum_remove(ctx, t.pick(13, 16));
     ctx.run_proptest("remove", t.pick(40_000, 1_000_000), remove_strategy(t.pick(60, 200)), &check_remove);
     ctx.run_proptest("lanes", t.pick(20_000, 500_000), crate::props::skip::lanes_strategy(), &crate::props::skip::check_lanes);
+    ctx.run_proptest("remove-long", t.pick(1_500, 50_000), remove_long_strategy(t.pick(6_000, 10_000)), &check_remove);
 }
 
 pub fn replayers() -> Vec<(&'static str, ReplayFn)> {
     vec![
         ("remove", |v| replay_with::<RemoveCase>(v, &check_remove)),
+        ("remove-long", |v| replay_with::<RemoveCase>(v, &check_remove)),
         ("lanes", |v| replay_with::<crate::props::skip::LanesCase>(v, &crate::props::skip::check_lanes)),
     ]
 }
